@@ -21,6 +21,10 @@ Definition make_stream (mode : str) (buffering : Z) : stack :=
       else NoBuffer in
   {| s_buffer := buf; s_text := negb binary |}.
 
+(* the call itself (since /repo 38091de): text I/O cannot be unbuffered - ValueError, as io.open; None = ValueError *)
+Definition make_stream_call (mode : str) (buffering : Z) : option stack :=
+  if (buffering =? 0)%Z && negb (has_char ch_b mode) then None else Some (make_stream mode buffering).
+
 (* the 16 modes of the property: {r,w,a,x} x {+,''} x {b,t} *)
 Definition all_modes : list str :=
   flat_map (fun k => flat_map (fun p => map (fun bt => k :: p ++ bt) [[ch_b]; [ch_t]; []])
